@@ -47,7 +47,8 @@ contract('saml2_tophat.time_util:str_to_time', params=None, pure=True,
          types={'timestr': 'Opt(Str)', 'format': 'Str'}, returns="Union(Int, Inst('time:struct_time'))",
          requires=["format == %r" % TF],
          ensures=['implies(not truthy(timestr), result == 0)',
-                  "implies(truthy(timestr), typed(result, \"Inst('time:struct_time')\") and st_epoch(result) == epoch(timestr))"],
+                  "implies(truthy(timestr), typed(result, \"Inst('time:struct_time')\") and st_epoch(result) == epoch(timestr))",
+                  ('only-parsable-text-is-accepted', 'implies(truthy(timestr), parsable(timestr))')],
          raises={'ValueError': 'truthy(timestr) and not parsable(timestr)',
                  'AttributeError': 'truthy(timestr) and not parsable(timestr)'},
          modifies=[], assumptions=['E-TIMEPARSE'],
